@@ -537,3 +537,10 @@ SPECS["C10"]["queries"] += [
     Q("serial_stop_rule_3_1", "c10_serial.c", defs={"PRED": None, "N0": 3, "NSCHED": 1}, unwind=8, timeout=2400, cost=8, mem_est=5,
       bounds="as serial_drain, with solver-chosen predicate results per (LP, evaluation): the run stops right after the event at which the last LP's predicate first holds, and not earlier; 3 initial + 1 scheduled events"),
 ]
+
+P_FINI = pq("lp_fini", "harness_lp_fini", h=5, mem_est=3, bounds="real process_lp_fini from an arbitrary history of <= 5 entries (any flag states)")
+P_INIT = pq("lp_init", "harness_lp_init", h=2, mem_est=2, bounds="real process_lp_init with a model scheduling 0..2 events at LP_INIT")
+SPECS["C06"]["queries"] += [P_FINI]
+SPECS["C11"]["queries"] += [P_FINI]
+SPECS["C01"]["queries"] += [P_INIT]
+SPECS["C13"]["queries"] += [P_INIT]   # the first checkpoint exists: base case of "a checkpoint not after the frontier is kept"
